@@ -26,7 +26,7 @@ RULE = (
     "l.v1/l.v2 = key/row -> value/column, creation order = input order (observable as the suffix order of each "
     "vertex's links); every vertex's prior links and universes are an unchanged prefix; read-back through "
     "neighbors() and find_links reproduces the adjacency (symmetric closure for undirected types).  A matrix that loaded fine is edited in place into a non-square one and loaded again (same object).  Error inputs "
-    "raise ValueError with every input vertex's snapshot unchanged.  Half of the cases run with neighbor caching on and warm caches (the builders must leave the cache consistent).  linktype is omitted where the requested type is the documented default; an empty description is loaded twice (the second universe is a new, empty one although the caller populated the first).  Matrix sizes 0-5 and 65 / 80 / 257 / 300 (pattern in the corners and at the far ends of the first row / column).  13 link classes (one takes the two ends as its only constructor arguments); in half of the cases the prior universe lives under restrictive laws (cycles=False, ...).  Non-trivial = >= 3 pairs and (a self entry, a "
+    "raise ValueError with every input vertex's snapshot unchanged.  Half of the cases run with neighbor caching on and warm caches (the builders must leave the cache consistent).  Bad matrices include one row too long and the next too short (n * n cells all the same).  linktype is omitted where the requested type is the documented default; an empty description is loaded twice (the second universe is a new, empty one although the caller populated the first).  Matrix sizes 0-5 and 65 / 80 / 257 / 300 (pattern in the corners and at the far ends of the first row / column).  13 link classes (one takes the two ends as its only constructor arguments); in half of the cases the prior universe lives under restrictive laws (cycles=False, ...).  Non-trivial = >= 3 pairs and (a self entry, a "
     "repeated entry or a prior link); distinct = distinct case value."
 )
 ASSUMPTIONS = [
